@@ -98,8 +98,8 @@ func VerifDeployStatus(arg string) {
 				recorded++
 			}
 		}
-		if w.site != "store.DeleteProcessing" {
-			// (a failing DeleteProcessing is a store failure, not an instance failure)
+		if !w.delRefused[n] {
+			// (a marker whose own deletion was the injected store failure stays by construction)
 			_, marker := w.processing[n]
 			vAssert("C13/no-in-progress-marker-after-return", !marker)
 			vAssert("C13/count-equals-recorded-workloads-after-return", vDeployCount(w, n) == recorded)
